@@ -374,7 +374,6 @@ def method(ex, frame, e, base, meth, hint):
             new = VList(base.n - 1, z3.Lambda([j], z3.If(j < idx, base.arr[j], base.arr[j + 1])), base.elem)
             new.removed_at = idx
             ex.mutate(base, new)
-            ex.st.ghost['last_remove_idx'] = VInt(idx)
             return VNone()
         if meth == 'clear':
             ex.mutate(base, ListS(base.elem).empty())
